@@ -36,6 +36,10 @@ struct Case {
     /// how the adapters end: 0 drop, 1 into_inner
     end: u8,
     echo: bool,
+    /// (executor driver) before this dispatch iteration a second adapt_io() on an fd that is adapted already is
+    /// attempted; it must be refused and leave the live adapter working
+    #[serde(default)]
+    refuse_at: Option<u8>,
 }
 
 struct Counted<F> {
@@ -310,7 +314,26 @@ fn run_case(c: &Case) -> (Vec<Alarm>, Vec<String>, u64, u64) {
         if let Some(f) = rfut {
             sched.schedule(Counted { f: Box::pin(f), polls: polls.clone() }).expect("schedule");
         }
+        let mut iteration = 0u32;
         while !(sh.writer_done.get() && sh.reader_done.get()) {
+            if c.refuse_at.map(|k| k as u32 == iteration).unwrap_or(false) {
+                for (is_task, raw) in [(!c.reader_is_thread, rraw), (!c.writer_is_thread, wraw)] {
+                    if !is_task {
+                        continue;
+                    }
+                    match h.adapt_io(FdX::named(raw)) {
+                        Err(_) => {}
+                        Ok(second) => {
+                            alarm("refused_duplicate", "second-adapter-on-an-adapted-fd-accepted", format!("adapt_io() on fd {} succeeded although a live adapter holds it", raw));
+                            std::mem::forget(second);
+                        }
+                    }
+                    if !sysx::is_nonblocking(raw) {
+                        alarm("nonblocking_inside", "refused-adapt_io-made-the-fd-blocking", format!("fd {} is blocking inside its adapter after a refused second adapt_io()", raw));
+                    }
+                }
+            }
+            iteration += 1;
             let before = polls.get();
             let t = Instant::now();
             if let Err(e) = el.dispatch(Some(Duration::from_millis(100)), &mut evs) {
@@ -399,7 +422,7 @@ fn run_case(c: &Case) -> (Vec<Alarm>, Vec<String>, u64, u64) {
         }
     }
     let mut thread_read: Option<Vec<u8>> = None;
-    if !alarms.borrow().is_empty() || !inconclusive.is_empty() {
+    if !alarms.borrow().is_empty() || !inconclusive.is_empty() || sh.io_error.borrow().is_some() {
         // a stalled transfer leaves the peer thread blocked in read/write: it is not waited for
         threads.clear();
     }
@@ -493,6 +516,7 @@ fn gen_case(args: &Args, case: u64) -> Case {
         driver: rng.below(3).min(1) as u8,
         end: rng.below(2) as u8,
         echo: false,
+        refuse_at: if rng.chance(1, 4) { Some(rng.below(4) as u8) } else { None },
     }
 }
 
